@@ -174,6 +174,38 @@ def run(ck: Check) -> None:
                          f"(if zlist_eqb (wire t2_{q} {cv2}) {bts} then 0 else 16))")
             metas.append((q, "dec", vi))
         sh.add(defs, exprs, metas)
+    # phase 3: the C runtime — S1's generated C decoder on the same S2 buffers, re-encoded by
+    # S1's C encoder; expected: Spec.wire t1 (proj t1 v2)
+    cjobs = []
+    for q, ((i, k), r) in enumerate(zip(index, res_old)):
+        versions, vals = chains[i]
+        s1 = versions[k][1]
+        if "decs" not in r:
+            continue
+        enc_new = [bytes(rr["enc"]).hex() for rr in res_new[i]["runs"]]
+        cjobs.append(dict(id=q, dir=os.path.join(ck.dir, f"c{q}"), files=s1.texts, base=s1.files[0].base,
+                          top=s1.top.name, top_upper=s1.top.name.upper(), bufs=enc_new))
+    cres = run_workers("run_c_fwd.py", cjobs, chunk=max(2, len(cjobs) // 32), timeout=900)
+    n_c = 0
+    for cj, cr in zip(cjobs, cres):
+        q = cj["id"]
+        i, k = index[q]
+        versions, vals = chains[i]
+        s1, s2 = versions[k][1], versions[-1][1]
+        if "outs" not in cr:
+            err = cr.get("compile_error") or cr.get("gcc_error") or cr.get("run_error") or cr.get("worker_error") or "?"
+            ck.violation(f"generated C of an older schema version could not be built/run: {err}",
+                         {"schema": s1.texts, "error": err}, found_input=True)
+            continue
+        defs = f"Definition ct1_{q} : ty := {s1.coq_ty()}.\n"
+        exprs, metas = [], []
+        for vi, (v, hx) in enumerate(zip(vals, cr["outs"])):
+            n_c += 1
+            cv2 = sg.coq_val(s2.top, v)
+            bts = pyside.bytes_term(list(bytes.fromhex(hx)))
+            exprs.append(f"(if zlist_eqb (wire ct1_{q} (proj (norm ct1_{q}) {cv2})) {bts} then 0 else 32)")
+            metas.append((q, "cdec", vi))
+        sh.add(defs, exprs, metas)
     out = sh.run(header=header)
     counts: Dict[str, int] = {}
     for (q, kind, vi), code in out:
@@ -184,7 +216,14 @@ def run(ck: Check) -> None:
         versions, vals = chains[i]
         s1, s2 = versions[k][1], versions[-1][1]
         steps = [st for (_, _, sts) in versions[k + 1:] for st in sts]
-        if kind == "rel":
+        if kind == "cdec":
+            v = vals[vi]
+            ck.violation("C runtime: the older schema's generated decoder does not recover the projection of the value "
+                         "encoded by the newer schema (observed through re-encoding with the older schema's C encoder)",
+                         {"s1": sg.schema_to_json(s1), "s2": sg.schema_to_json(s2), "steps": steps,
+                          "value": sg.value_to_json(s2.top, v),
+                          "expected_value": sg.value_to_json(s1.top, proj_value(s1.top, v))}, found_input=True)
+        elif kind == "rel":
             ck.broken(Broken("generator produced a pair outside the model's Evolves relation (harness bug or model too narrow)",
                              json.dumps({"s1": s1.texts, "s2": s2.texts, "steps": steps})[:3000]))
         elif kind == "t1":
@@ -216,7 +255,9 @@ def run(ck: Check) -> None:
     cov["rule"] = ("chains S1 -> ... -> Sk (1-4 evolution steps: append fields to extensible messages, raise capacities of "
                    "extensible arrays, at any depth; every version is decoded against the newest) x values of the newest "
                    "version; a case is (S1 text, Sk text, value); all are non-trivial (at least one step was applied)")
-    cov["tie"] = {**cov.get("tie", {}), "chains": len(chains), "pairs": len(index), "codes": counts}
+    cov["tie"] = {**cov.get("tie", {}), "chains": len(chains), "pairs": len(index), "codes": counts,
+                  "c_runtime_decodes": n_c}
+    cov["evaluations"] = n_eval + n_c
     if chains:
         versions, vals = chains[0]
         cov["samples"].append({"s1": versions[0][1].texts, "newest": versions[-1][1].texts,
